@@ -265,3 +265,33 @@ CHECKS["C12"] = dict(
     assumptions=["member_cast / reinterpret_array_cast / static_array_cast on views whose element pointer is pointer-to-const (some const paths) do not compile on this tree: not generated (api gap)",
                  "layout scaling of re-based sources asserts offset==0 (library TODO): sources are zero-based", "g++ 12 -O0 -DNDEBUG ASan+UBSan"],
 )
+
+
+def c11_jobs(tier):
+    jobs = []
+    ranks = (1, 2, 3) if tier == "quick" else (1, 2, 3, 4)
+    jobs += ranks_jobs("viewmc", "san", tier, ranks=ranks, extra_defs=["-DVM_FANCY"], extra_args=["--depth=%d" % (3 if tier == "quick" else 4)], shards_thorough=2)
+    jobs += ranks_jobs("itermc", "san", tier, ranks=ranks, extra_defs=["-DVM_FANCY"], shards_thorough=2)
+    jobs += ranks_jobs("assignmc", "san", tier, ranks=(1, 2, 3), extra_defs=["-DVM_FANCY"], extra_args=["--depth=%d" % (1 if tier == "quick" else 2)], shards_thorough=2)
+    for d in ((1, 2) if tier == "quick" else (1, 2, 3)):
+        for e in (0, 1):
+            jobs.append(Job("histmc", cfg="san", defs=["-DHM_D=%d" % d, "-DHM_ELEM=%d" % e, "-DHM_FANCY"], args=["--tier=" + tier, "--prop=all", "--depth=%d" % (3 if tier == "quick" else 4)]))
+    for d in (1, 2, 3):
+        jobs.append(Job("cmpmc", cfg="san", defs=["-DCMP_D=%d" % d, "-DCMP_FANCY"], args=["--tier=" + tier]))
+    return jobs
+
+
+CHECKS["C11"] = dict(
+    title="independence of the pointer type", level="model_checking", engine="E1",
+    claim=("The explorers of C01 (view algebra), C02 (iterator laws), C05 (assignment through views), C04/C06/C08 (histories of owning arrays) and C07 (comparisons) are re-instantiated over fancy::ptr<T>, a minimal user-defined "
+           "random-access pointer (no implicit conversion to or from raw pointers, proxy-free references) that carries the provenance [lo,hi) of its storage: array_ref<T,D,fancy::ptr<T>> roots for the view explorers and an "
+           "allocator whose pointer type is fancy::ptr<T> for the owning-array histories. Every state/transition is compared with the SAME reference model as the raw-pointer run of the respective check, so equal verdicts mean "
+           "element-for-element equal observations; in addition every dereference outside the storage the array owns or was given, and every use of a null fancy pointer, is counted and must be zero. Instantiating the "
+           "whole alphabet also decides the 'uses only that type's own arithmetic' clause: any reliance on raw-pointer convertibility would not compile."),
+    jobs=c11_jobs,
+    ignore_keys=["*|ordering-between-different-element-types|does-not-compile", "*|ordering-between-different-pointer-types|does-not-compile", "D0|*owning-0D-array-operand*"],
+    rule=("same state spaces, alphabets and oracles as C01/C02/C05/C04/C06/C08/C07 (see their rules) with the element pointer replaced; provenance counters reported as fancy_dereferences / violations 'fancy-pointer|...'. "
+          "distinct_nontrivial as in the respective explorers."),
+    assumptions=["engine/fancy_ptr.hpp is a conforming random-access pointer-like type with pointer_traits rebind", "ordering operators between operands of DIFFERENT pointer types are not promised (==/!= are, and are checked)",
+                 "harness-side address comparison uses std::addressof(*p) / a harness-only accessor of fancy::ptr"],
+)
